@@ -21,6 +21,7 @@ def base_cases(thorough):
     for c in gen: by.setdefault(c.family, []).append(c)
     for fam, cs in by.items():
       out += cs[::st]
+      out += [c for k, c in enumerate(cs) if k % st and 'K(a, ' in c.text()]     # every K-best aggregate program (row-arrival order matters most there)
   for c in families.c03_cases(False):
     if c.info['depth'] in (2, 3, 21) and c.info['shape'] in ('tc_right', 'mutual_cut', 'even_odd', 'mutual_flat_small', 'ring3', 'shortest_path', 'through_functor', 'two_components', 'counter_set'):
       c.dbs = c.dbs[::4]
@@ -67,7 +68,7 @@ def work(task):
     depths = dict(c.depths or {})
     for new, old in origin.items():
       if old in depths: depths[new] = depths[old]
-    dbs = (c.dbs or [])[::2]
+    dbs = (c.dbs or [])[::2] + [d for d in (c.dbs or [])[1::2] if max(len(v) for v in d.values()) >= 4]
     # recursion that is cut at one predicate is only sandwiched by the reference semantics (C03): for those shapes the
     # variant is compared with the implementation's own result on the original program (metamorphic oracle)
     orig_impl = None
